@@ -41,6 +41,9 @@ pub enum Profile {
     F,
     /// small batch alphabet for schedule exploration
     EB,
+    /// batches x dependencies x running-time hints: systems and (nested) batches that may depend on one
+    /// earlier name
+    ED,
     /// "zoo": shallow sequences over a rich alphabet that crosses the features (named / unnamed systems,
     /// thread-local systems, barriers, batches with plain / multi controllers dispatching 1-2 times whose
     /// inner plans contain barriers, thread-local systems, unnamed systems and nested batches)
@@ -84,6 +87,16 @@ fn dep_options(names: &[String], dup: bool, pairs: bool) -> Vec<Vec<String>> {
     if dup {
         for n in names {
             v.push(vec![n.clone(), n.clone()]);
+        }
+        if pairs {
+            // a name repeated with another one in between, and pairs listed against registration order
+            for i in 0..names.len() {
+                for j in i + 1..names.len() {
+                    v.push(vec![names[i].clone(), names[j].clone(), names[i].clone()]);
+                    v.push(vec![names[j].clone(), names[i].clone(), names[j].clone()]);
+                    v.push(vec![names[j].clone(), names[i].clone()]);
+                }
+            }
         }
     }
     v
@@ -166,6 +179,7 @@ impl Profile {
             Profile::E { inner_max, rich } => format!("E(batches; inner plans of <= {} ops, rich {})", inner_max, rich),
             Profile::F => "F(thread-local)".to_string(),
             Profile::EB => "EB(small batch alphabet)".to_string(),
+            Profile::ED => "ED(batches x single dependencies x running time {1,5})".to_string(),
             Profile::Z { inner_max } => format!("Z(feature zoo; inner plans of <= {} ops incl. barriers, thread-local, unnamed, nested / multi batches)", inner_max),
             Profile::S => "S(statically typed systems, declaring controllers, thread-local)".to_string(),
             Profile::N => "N(names)".to_string(),
@@ -266,6 +280,9 @@ impl Profile {
                     out.push((Op::Static(StaticSpec { name: name.clone(), deps: vec![], data: d, time: 3 }), false));
                 }
                 out.push((s(name.clone(), &[], &[1], 3, vec![]), false));
+                // dynamically declared writers of the two resources the static types can name
+                out.push((s(name.clone(), &[], &[0], 3, vec![]), false));
+                out.push((s(name.clone(), &[], &[2], 3, vec![]), false));
                 out.push((Op::Tl(SysSpec { name: String::new(), reads: vec![], writes: vec![], time: 3, deps: vec![] }), false));
                 let st = |d: StaticData| Op::Static(StaticSpec { name: "x".into(), deps: vec![], data: d, time: 3 });
                 let inners: Vec<Vec<Op>> = vec![
@@ -325,6 +342,27 @@ impl Profile {
                         let multi = (k + ci) % 2 == 1;
                         let times = 1 + ((k / 2 + ci) % 2) as u8;
                         out.push((Op::Batch(BatchSpec { name: if k % 3 == 2 { String::new() } else { name.clone() }, deps: vec![], ctrl, times, multi, fetch_data: false, inner: inner.clone() }), false));
+                    }
+                }
+            }
+            Profile::ED => {
+                let names = named_before(prefix);
+                let mut deps: Vec<Vec<String>> = vec![vec![]];
+                deps.extend(names.iter().map(|n| vec![n.clone()]));
+                for d in &deps {
+                    for (r, w) in [(vec![], vec![]), (vec![0u8], vec![]), (vec![], vec![0u8]), (vec![], vec![1u8])] {
+                        for t in [1u8, 5] {
+                            out.push((s(name.clone(), &r, &w, t, d.clone()), false));
+                        }
+                    }
+                    let leaf = |w: u8| s("x".into(), &[], &[w], 3, vec![]);
+                    let inners: Vec<Vec<Op>> = vec![
+                        vec![leaf(0)],
+                        vec![leaf(1)],
+                        vec![Op::Batch(BatchSpec { name: "n".into(), deps: vec![], ctrl: CtrlData::Unit, times: 1, multi: false, fetch_data: false, inner: vec![leaf(0)] })],
+                    ];
+                    for inner in inners {
+                        out.push((Op::Batch(BatchSpec { name: name.clone(), deps: d.clone(), ctrl: CtrlData::Unit, times: 1, multi: false, fetch_data: false, inner }), false));
                     }
                 }
             }
@@ -577,7 +615,7 @@ impl<'a> Worker<'a> {
                 }
             }
             // C03 metamorphic: redundant barriers change nothing
-            if self.run.props.c03 {
+            if self.run.props.c03 && all_calls_ok(&obs) {
                 if let Some(red) = redundant_barrier_removed(ops) {
                     self.stats.barrier_metamorphic += 1;
                     match layout_of(&red, &idm) {
@@ -718,6 +756,18 @@ pub fn run_profile(run: &E1Run) -> E1Result {
 
 pub fn families(nmax: usize) -> Vec<(String, Vec<Op>)> {
     let mut out = Vec::new();
+    // sizes around the ranges of 8-bit counters, whatever `nmax` is: stages, groups of a stage, systems,
+    // thread-local systems, dependencies of one system
+    for n in [255usize, 256, 257, 300] {
+        let nm = |i: usize| format!("s{}", i);
+        let free = |name: &str| s(name.into(), &[], &[], 3, vec![]);
+        out.push((format!("big: {} stages; barrier; free system", n), (0..n).map(|i| s(nm(i), &[], &[0], 3, vec![])).chain([Op::Barrier, free("after")]).collect()));
+        out.push((format!("big: {} stages; free system", n), (0..n).map(|i| s(nm(i), &[], &[0], 3, vec![])).chain([free("after")]).collect()));
+        out.push((format!("big: one stage of {} groups; barrier; writer", n), (0..n).map(|i| s(nm(i), &[0], &[], 3, vec![])).chain([Op::Barrier, s("w".into(), &[], &[0], 3, vec![])]).collect()));
+        out.push((format!("big: dependency chain of {}", n), (0..n).map(|i| s(nm(i), &[], &[], 3, if i == 0 { vec![] } else { vec![nm(i - 1)] })).collect()));
+        out.push((format!("big: sink depending on {} systems", n), (0..n).map(|i| s(nm(i), &[], &[], 3, vec![])).chain([s("sink".into(), &[], &[], 3, (0..n).map(nm).collect())]).collect()));
+        out.push((format!("big: {} thread-local systems", n), (0..n).map(|_| Op::Tl(SysSpec { name: String::new(), reads: vec![], writes: vec![], time: 3, deps: vec![] })).chain([free("x")]).collect()));
+    }
     for n in 1..=nmax {
         let nm = |i: usize| format!("s{}", i);
         out.push((format!("writers({})", n), (0..n).map(|i| s(nm(i), &[], &[0], 3, vec![])).collect()));
@@ -770,6 +820,21 @@ pub fn families(nmax: usize) -> Vec<(String, Vec<Op>)> {
                 format!("batch-of-thread-local({})", n),
                 vec![Op::Batch(BatchSpec { name: "b".into(), deps: vec![], ctrl: CtrlData::Unit, times: 1, multi: false, fetch_data: false, inner: (0..n).map(|_| tl(&[])).collect() })],
             ));
+        }
+        if n <= 32 {
+            // long declared lists: the one shared resource sits behind n-1 entries naming another resource
+            // (duplicates are legal), in the read or the write list, registered before or after the small system
+            for (x, y) in [(0u8, 1u8), (1, 0)] {
+                let pad = |last: u8| -> Vec<u8> { std::iter::repeat(x).take(n - 1).chain(std::iter::once(last)).collect() };
+                let small_w = s("small".into(), &[], &[y], 3, vec![]);
+                let small_r = s("small".into(), &[y], &[], 3, vec![]);
+                let wide_w = s("wide".into(), &[], &pad(y), 3, vec![]);
+                let wide_r = s("wide".into(), &pad(y), &[], 3, vec![]);
+                for (label, a, b) in [("writer / long write list", &small_w, &wide_w), ("writer / long read list", &small_w, &wide_r), ("reader / long write list", &small_r, &wide_w)] {
+                    out.push((format!("long-list({}; {}; shared {} behind {})", n, label, y, x), vec![a.clone(), b.clone()]));
+                    out.push((format!("long-list({}; {}; shared {} behind {}; long first)", n, label, y, x), vec![b.clone(), a.clone()]));
+                }
+            }
         }
         if n % 7 == 0 {
             // barrier every 7 systems, hostile names
@@ -1053,10 +1118,9 @@ pub fn c19_check(ops: &[Op], l: &crate::hsys::Layout, nmaps: usize) -> (u64, Vec
         ops.iter().any(|o| matches!(o, Op::Batch(b) if b.ctrl != CtrlData::Unit || has_ctrl_data(&b.inner)))
     }
     let fixed = has_ctrl_data(ops);
-    for m in resmaps(nmaps).iter().skip(1) {
-        if fixed && !(m[0] == 0 && m[2] == 2) {
-            continue;
-        }
+    // with A and C pinned there are only 24 relabellings: all of them, in both tiers
+    let maps: Vec<Vec<u8>> = if fixed { resmaps(usize::MAX).into_iter().filter(|m| m[0] == 0 && m[2] == 2).collect() } else { resmaps(nmaps) };
+    for m in maps.iter().skip(1) {
         cmp(&format!("resources relabelled by {:?}", &m[..4]), "plan-depends-on-resource-identity", ops, m, &mut n, &mut vs);
     }
     (n, vs)
